@@ -363,6 +363,12 @@ class Oracle:
                 else:
                     if matching:
                         hits.append(("false_marker_edge", (nv, tgt, rq, ty, sorted(extras[nv]))))
+        # the root is not replaced: what leaves the root node are requirements of the root version itself
+        if nodes:
+            rreqs = self.uni.get(nodes[0][0], {}).get(nodes[0][1], [])
+            for tk, erq, ety in out.get(nodes[0], []):
+                if not any(tgt == tk[0] and rq == erq and ty == ety for tgt, rq, ty in rreqs):
+                    hits.append(("root_edge_foreign", (tk, erq, ety)))
         # reachability
         seen = {nodes[0]} if nodes else set()
         todo = list(seen)
@@ -466,7 +472,7 @@ def run_batch(ctx, unis, label):
                 ctx.count("raw_client_differs_from_recording_client")
             ctx.count("backtracks:" + ("none" if nb <= 0 else "1" if nb == 1 else "2-4" if nb <= 4 else "5+"))
             kind = rec[0].decode()
-            ctx.count("outcome:" + (kind if kind != "gerr" else "gerr:" + rec[1].decode()))
+            ctx.count("outcome:" + kind)
             if kind != "ok":
                 continue
             orc = Oracle(uni, r, orc_tables, direct)
